@@ -175,6 +175,17 @@ Section Monitor.
             match q, f with QPay _ _ _ _ _, AppliedButError => set_bad m1 | _, _ => m1 end
         | _ => set_bad m
         end
+    | GTimeout h cid =>
+        (* a legitimate "timed out" answer to a wait that carried a timeout: the part stays pending, no fault is recorded *)
+        let x := get_h m h in
+        match mcall_get x cid with
+        | Some {| mc_q := (QWaitPart pid) as q; mc_st := MUnproc |} =>
+            match nth_error (parts (mh_nd x)) pid with
+            | Some PPend => set_h m h (upd_h x (mh_nd x) (mcall_put cid {| mc_q := q; mc_st := MReplied YErr |} (mh_calls x)))
+            | _ => set_bad m
+            end
+        | _ => set_bad m
+        end
     | GEv h (EvDeliver cid _) =>
         let x := get_h m h in
         match mcall_get x cid with
